@@ -1041,6 +1041,13 @@ func (s *SecureChannel) sendAsyncWithTimeout(
 	verifPoint("send.lockedInst", reqID, instance)
 	defer verifPoint("send.unlockInst", reqID, instance)
 
+	// do not draw a sequence number for a request that is not going to be sent
+	select {
+	case <-ctx.Done():
+		return nil, ctx.Err()
+	default:
+	}
+
 	m, err := instance.newRequestMessage(req, reqID, authToken, timeout)
 	if err != nil {
 		return nil, err
